@@ -15,6 +15,16 @@ def get_decoder(facts):
     return _cache[k]
 
 
+def ctx_flags(facts):
+    """the fast-path flag fields that exist in this build configuration (bignum_vec_fast_path is feature-gated)"""
+    st = facts.crate("candid").item("struct", r"candid::de::Deserializer$")
+    names = {f["name"] for f in st["variants"][0]["fields"]}
+    out = [f for f in CTX_FLAGS if f in names]
+    if "text_fast_path" not in out or "primitive_vec_fast_path" not in out:
+        raise AnchorMissing(f"Deserializer no longer has the fast-path flag fields {CTX_FLAGS}: found {sorted(names)}")
+    return out
+
+
 def vouched(st):
     return any(x.startswith("V:") for x in st)
 
@@ -103,6 +113,7 @@ def rule_context(chk, facts):
     """at every dispatch that starts a new component the decoding context is re-established"""
     D = get_decoder(facts)
     names = style_names(facts)
+    FLAGS = ctx_flags(facts)
     n = 0
     found = set()
     for k, eb, s in D.sites("seed"):
@@ -143,7 +154,7 @@ def rule_context(chk, facts):
                     if not okv:
                         problems.append(f"`{ty}` is not assigned before the dispatch")
                 if style == "Map":
-                    for fl in CTX_FLAGS:
+                    for fl in FLAGS:
                         if f"A:{fl}" not in st:
                             problems.append(f"fast-path flag `{fl}` is inherited from the previous component "
                                             f"(not assigned in the accessor)")
@@ -164,7 +175,7 @@ def rule_context(chk, facts):
     for k, eb, s in D.sites("flag-assign"):
         if fn_short(k) == "drop" or k.endswith("Drop>::drop"):
             cleared[s.name] = flag_value_class(D, k, s)
-    for fl in CTX_FLAGS:
+    for fl in FLAGS:
         chk.expect(cleared.get(fl) == "cleared", f"Drop for Compound:{fl}",
                    f"Drop for Compound must reset `{fl}` (found {cleared.get(fl)}): a fast-path flag would survive the compound it belongs to "
                    f"and the next sibling value would be decoded without type tests")
